@@ -604,6 +604,178 @@ def real_lp_faults(rep):
                     rep.oracle_failures.append(bad)
 
 
+# ----------------------------------------------------------------------------- faults from INSIDE the compiled callables
+
+
+def errstate_problem(name):
+    """problems whose derivative callables hit 0/0, x/0 or an underflow: under np.errstate(all="raise") the REAL
+    compiled gradient / constraint Jacobian / Hessian raises FloatingPointError in the middle of filling its result
+    (first entry, a later entry, first call at the default start 0, or every call for the underflow shapes)"""
+    from optyx import Problem, Variable, VectorVariable
+    from optyx.core.functions import abs_, exp, sqrt
+    from optyx.core.vectors import norm
+
+    a, b, c = Variable("a"), Variable("b"), Variable("c")
+    v = VectorVariable("v", 3)
+    P = Problem()
+    if name == "|a|+(b-3)^2":
+        P.minimize(abs_(a) + (b - 3.0) ** 2)
+    elif name == "(a-3)^2+|b|":
+        P.minimize((a - 3.0) ** 2 + abs_(b))
+    elif name == "(a-1)^2+(b-2)^2+|c|":
+        P.minimize((a - 1.0) ** 2 + (b - 2.0) ** 2 + abs_(c))
+    elif name == "sqrt(a*a+b*b)+(a-1)^2":
+        P.minimize(sqrt(a * a + b * b) + (a - 1.0) ** 2)
+    elif name == "a/|a|-like: a*a/|a|":
+        P.minimize((a * a) / (abs_(a) + 0.0 * b) + (b - 1.0) ** 2)
+    elif name == "con:|a|+b<=5":
+        P.minimize((a - 1.0) ** 2 + (b - 2.0) ** 2).subject_to(abs_(a) + b <= 5.0)
+    elif name == "con:sqrt(a*a+b*b)<=4":
+        P.minimize((a - 1.0) ** 2 + (b - 5.0) ** 2).subject_to(sqrt(a * a + b * b) <= 4.0)
+    elif name == "con2:b-a<=3,|b|+a<=6":
+        P.minimize((a - 1.0) ** 2 + (b - 2.0) ** 2).subject_to(b - a <= 3.0).subject_to(abs_(b) + a <= 6.0)
+    elif name == "underflow:exp(a-800)":
+        P.minimize((a - 1.0) ** 2 + (b - 3.0) ** 2 + exp(a - 800.0))
+    elif name == "underflow:exp(b-800)":
+        P.minimize((a - 1.0) ** 2 + (b - 3.0) ** 2 + exp(b - 800.0))
+    elif name == "underflow-con:exp(b-800)+a<=4":
+        P.minimize((a - 5.0) ** 2 + (b - 3.0) ** 2).subject_to(exp(b - 800.0) + a <= 4.0)
+    elif name == "overflow:exp(700*a)*0":
+        P.minimize((a + 1.0) ** 2 + (b - 3.0) ** 2 + 1e-300 * exp(-750.0 * (a + 1.0)) * (b + 0.0))
+    elif name == "norm(v)+(v0-1)^2":
+        P.minimize(norm(v) + (v[0] - 1.0) ** 2 + (v[1] - 2.0) ** 2 + v[2] ** 2)
+    elif name == "(v.dot(v))**0.5":
+        P.minimize(v.dot(v) ** 0.5 + (v[0] - 1.0) ** 2)
+    else:
+        raise ValueError(name)
+    return P
+
+
+ERRSTATE_PROBLEMS = ["|a|+(b-3)^2", "(a-3)^2+|b|", "(a-1)^2+(b-2)^2+|c|", "sqrt(a*a+b*b)+(a-1)^2", "a/|a|-like: a*a/|a|",
+                     "con:|a|+b<=5", "con:sqrt(a*a+b*b)<=4", "con2:b-a<=3,|b|+a<=6", "underflow:exp(a-800)", "underflow:exp(b-800)",
+                     "underflow-con:exp(b-800)+a<=4", "overflow:exp(700*a)*0", "norm(v)+(v0-1)^2", "(v.dot(v))**0.5"]
+ERRSTATE_METHODS = ["auto", "SLSQP", "L-BFGS-B", "BFGS", "trust-constr", "Newton-CG", "TNC", "CG"]
+
+
+def errstate_case(data):
+    """first solve with floating-point errors raised from inside the real callables (during the whole solve, or only
+    during the k-th call of one kind of callable); then the same Problem is solved again without it and must equal a
+    fresh problem's solve"""
+    import optyx.core.autodiff as AD
+    import optyx.core.compiler as CC
+
+    name, method, mode = data["problem"], data["method"], data["mode"]
+    P = errstate_problem(name)
+    st = {"n": {}, "ce": 0, "cj": 0, "raised": False}
+
+    def wrap(f, kd):
+        def g(*a, **kw):
+            k = st["n"].get(kd, 0)
+            st["n"][kd] = k + 1
+            if mode[0] == kd and k == mode[1] and not st["raised"]:
+                try:
+                    with np.errstate(all="raise"):
+                        return f(*a, **kw)
+                except FloatingPointError:
+                    st["raised"] = True
+                    raise
+            return f(*a, **kw)
+        return g
+
+    o_ce, o_cj, o_ch = CC.compile_expression, AD.compile_jacobian, AD.compile_hessian
+
+    def p_ce(*a, **kw):
+        f = o_ce(*a, **kw)
+        if sys._getframe(1).f_code.co_name == "_build_solver_cache":
+            kd = "obj" if st["ce"] == 0 else "con"
+            st["ce"] += 1
+            return wrap(f, kd)
+        return f
+
+    def p_cj(*a, **kw):
+        f = o_cj(*a, **kw)
+        if sys._getframe(1).f_code.co_name == "_build_solver_cache":
+            kd = "grad" if st["cj"] == 0 else "jac"
+            st["cj"] += 1
+            return wrap(f, kd)
+        return f
+
+    def p_ch(*a, **kw):
+        return wrap(o_ch(*a, **kw), "hess")
+
+    out = {}
+    rl0, hook_ok = sys.getrecursionlimit(), True
+    with warnings.catch_warnings():
+        warnings.simplefilter("ignore")
+        hook0 = warnings.showwarning
+        if mode[0] != "whole":
+            CC.compile_expression, AD.compile_jacobian, AD.compile_hessian = p_ce, p_cj, p_ch
+        try:
+            try:
+                if mode[0] == "whole":
+                    with np.errstate(all="raise"):
+                        out["solution"] = P.solve(method=method)
+                else:
+                    out["solution"] = P.solve(method=method)
+            except BaseException as e:  # noqa: BLE001
+                out["exception"] = e
+        finally:
+            CC.compile_expression, AD.compile_jacobian, AD.compile_hessian = o_ce, o_cj, o_ch
+        hook_ok = warnings.showwarning is hook0
+    first = out["solution"].status.name if "solution" in out else "raise:" + type(out["exception"]).__name__
+    if not hook_ok or sys.getrecursionlimit() != rl0:
+        return {"what": "hook / recursion limit not restored"}, first
+    if "exception" in out and not isinstance(out["exception"], FloatingPointError):
+        return {"what": f"the floating-point fault surfaced as {type(out['exception']).__name__}: {out['exception']}"[:240]}, first
+    if mode[0] != "whole" and st["raised"] and "solution" in out and out["solution"].status.name != "FAILED":
+        return {"what": f"FloatingPointError raised inside the {mode[0]} callable, yet status {out['solution'].status.name}"}, first
+    cr = cache_report(P)
+    if cr is not None:
+        return {"what": "problem caches invalid after the fault: " + cr}, first
+    # the callables of the cache were wrapped: disarmed now (mode index passed / raised flag set)
+    st["raised"] = True
+    nxt = plain_solve(P, method)
+    key = ("errstate", name, method)
+    if key not in _BASELINES:
+        _BASELINES[key] = plain_solve(errstate_problem(name), method)
+    ref = _BASELINES[key]
+    if not same_solution(nxt, ref):
+        return {"what": "the solve after the floating-point fault differs from the solve of a fresh problem",
+                "after_fault": [nxt.status.name, dict(nxt.values), nxt.objective_value],
+                "fresh": [ref.status.name, dict(ref.values), ref.objective_value]}, first
+    return None, first
+
+
+def errstate_fault_cases(rep, rng, thorough):
+    i = 0
+    for name in ERRSTATE_PROBLEMS:
+        for method in ERRSTATE_METHODS:
+            constrained = "con" in name
+            if constrained and method in ("L-BFGS-B", "BFGS", "Newton-CG", "TNC", "CG"):
+                continue
+            modes = [("whole", 0), ("grad", 0), ("grad", 1), ("grad", 3), ("jac", 0), ("jac", 2), ("hess", 0), ("hess", 1),
+                     ("obj", 0), ("con", 1)]
+            for mode in modes:
+                i += 1
+                if mode[0] in ("jac", "con") and not constrained:
+                    continue
+                if mode[0] == "hess" and method not in ("trust-constr", "Newton-CG", "auto"):
+                    continue
+                if not thorough and mode[0] != "whole" and mode != ("grad", 0) and mode != ("jac", 0) and i % 3:
+                    continue
+                data = {"problem": name, "method": method, "mode": list(mode)}
+                data["mode"] = tuple(data["mode"])
+                bad, first = errstate_case(data)
+                rep.evaluations += 1
+                k = f"errstate:{mode[0]}:{first}"
+                rep.histogram[k] = rep.histogram.get(k, 0) + 1
+                if first in ("FAILED", "raise:FloatingPointError"):
+                    rep.nontrivial.add(hash(("errstate", name, method, mode)))
+                if bad is not None:
+                    bad.update({"kind_of_case": "errstate", "data": {"problem": name, "method": method, "mode": list(mode)}})
+                    rep.oracle_failures.append(bad)
+
+
 # ----------------------------------------------------------------------------- public helpers under faults
 
 
@@ -768,6 +940,7 @@ def run(ctx) -> core.Report:
     fault_table(rep, rng, thorough)
     fault_histories(rep, rng, thorough)
     helper_fault_cases(rep, rng, thorough)
+    errstate_fault_cases(rep, rng, thorough)
     real_fault_cases(rep, rng, thorough)
     real_lp_faults(rep)
     rep.exhaustive = thorough
@@ -803,6 +976,8 @@ def search(ctx, rep):
         return r2.oracle_failures[0]
     helper_fault_cases(r2, rng, True)
     r2.corr_mismatches.clear()
+    if not r2.oracle_failures:
+        errstate_fault_cases(r2, rng, False)
     if r2.oracle_failures:
         return r2.oracle_failures[0]
     # bounded (≈2 min): the quick fault table with another seed (its oracle half does not use the model),
@@ -841,6 +1016,11 @@ def replay(payload) -> bool:
             if nxt != ref:
                 bad = {"what": "next solve differs from twin", "after_fault": nxt, "twin": ref}
         print(bad)
+        return bad is None
+    if kind == "errstate":
+        d = dict(f["data"]); d["mode"] = tuple(d["mode"])
+        bad, first = errstate_case(d)
+        print(first, bad)
         return bad is None
     if kind == "helper":
         bad = helper_case(f["data"])
